@@ -131,6 +131,21 @@ def check_state(acc, pendulum, z, inst):
              "replace": (x.replace(microsecond=5), pendulum.DateTime),
              "combine": (pendulum.DateTime.combine(x.date(), x.time()), pendulum.DateTime),
              "fromordinal": (pendulum.DateTime.fromordinal(x.toordinal()), pendulum.DateTime)}
+    if z is not None:
+        # pendulum's own selectors handed native candidates (1 h later, 2 days earlier - as instants): the winner comes back
+        # as a pendulum value
+        try:
+            bu = b.astimezone(dt_.timezone.utc)
+            n1 = (bu + dt_.timedelta(hours=1)).astimezone(b.tzinfo)
+            n2 = (bu - dt_.timedelta(days=2)).astimezone(b.tzinfo)
+            c1, c2 = x.closest(n1, n2), x.farthest(n1, n2)
+            types["closest(natives)"] = (c1, pendulum.DateTime)
+            types["farthest(natives)"] = (c2, pendulum.DateTime)
+            if c1.astimezone(dt_.timezone.utc) != n1.astimezone(dt_.timezone.utc) or \
+                    c2.astimezone(dt_.timezone.utc) != n2.astimezone(dt_.timezone.utc):
+                acc.mismatch("result-type", "closest/farthest-winner", case, [str(c1), str(c2)], [str(n1), str(n2)])
+        except OverflowError:
+            pass
     for k, (v, t) in types.items():
         acc.c["evaluations"] += 1
         if type(v) is not t:
